@@ -42,10 +42,9 @@ class SubRec:
 
 
 class Change:
-    def __init__(self, pv, flags_changed, changed):
+    def __init__(self, pv, flags_changed):
         self.pv = pv                        # present value after this write
         self.flags_changed = flags_changed  # this write changed the status flags
-        self.changed = changed              # this write changed anything at all
 
 
 class CovRef:
@@ -129,17 +128,13 @@ class CovRef:
 
     def write(self, pv=None, flags=None):
         fc = False
-        ch = False
         if pv is not None:
-            if pv != self.pv:
-                ch = True
             self.pv = pv
         if flags is not None:
             if list(flags) != self.flags:
                 fc = True
-                ch = True
             self.flags = list(flags)
-        self.pending.append(Change(self.pv, fc, ch))
+        self.pending.append(Change(self.pv, fc))
 
     def _counts(self, base):
         """(any change qualifies, most notifications a one-by-one or a coalescing reporter
